@@ -461,17 +461,30 @@ fn replace_call_callee_and_args(
     } else {
         ExpandArrays::No
     };
-    call_replacement.args.iter_mut().for_each(|expr_or_spread| {
-        DefaultOperandHandler::replace_expressions_in_expr_or_spread(
-            expr_or_spread,
-            IdentMode::Replace,
-            assignations,
-            arguments,
-            &span,
-            ident_provider,
-            expand_arrays,
-        )
-    });
+    // fn.apply(thisArg, argsArray, ...) ignores whatever follows argsArray: it is still evaluated
+    // in place, but it is not an operand of the method and must not reach the hook
+    let this_is_spread = call.args.first().map_or(false, |arg| arg.spread.is_some());
+    let mut not_passed = Vec::new();
+    call_replacement
+        .args
+        .iter_mut()
+        .enumerate()
+        .for_each(|(index, expr_or_spread)| {
+            let surplus = prop_name == "apply" && !this_is_spread && index > 0;
+            DefaultOperandHandler::replace_expressions_in_expr_or_spread(
+                expr_or_spread,
+                IdentMode::Replace,
+                assignations,
+                if surplus {
+                    &mut not_passed
+                } else {
+                    &mut *arguments
+                },
+                &span,
+                ident_provider,
+                expand_arrays,
+            )
+        });
 
     call_replacement
 }
